@@ -180,6 +180,8 @@ void guarded(mj::Value &reply, const std::function<Boxed_Value()> &f) {
     const Boxed_Value r = f();
     mj::Value res = mj::Value::object();
     res.set("t", type_tag(r));
+    res.set("ctype", is_a<long long>(r) ? "long long" : is_a<unsigned long long>(r) ? "unsigned long long" : is_a<long>(r) ? "long"
+                     : is_a<unsigned long>(r) ? "unsigned long" : is_a<int>(r) ? "int" : is_a<unsigned int>(r) ? "unsigned int" : "");
     res.set("r", render(r));
     res.set("const", r.is_const());
     res.set("ref", r.is_ref());
@@ -320,6 +322,7 @@ static mj::Value cmd_eval(const mj::Value &rq) {
     s.h->cb_fail_at = rq.at("cb_fail_at").num();
     s.h->cb_fail_kind = rq.at("cb_fail_kind").str("runtime_error");
   }
+  for (const auto &kv : rq.at("set_str").o) { s.chai->set_global(chaiscript::var(kv.second.str()), kv.first); }
   mj::Value r = eval_on(s, rq.at("script").str(), rq.at("fname").str("__EVAL__"), rq.at("cache_off").boolean(false));
   if (rq.at("shape").boolean(false)) r.set("shape", stack_shape(*s.chai));
   return r;
@@ -354,12 +357,26 @@ static mj::Value cmd_run(const mj::Value &rq) {
   out.set("results", std::move(results));
   return out;
 }
+// C++ API entry points eval_file / use on an engine slot
+static mj::Value cmd_file(const mj::Value &rq) {
+  Slot &s = slot(rq.at("id").num());
+  mj::Value reply = mj::Value::object();
+  const std::string path = rq.at("path").str();
+  const bool use = rq.at("cmd").str() == "use";
+  guarded(reply, [&]() { return use ? s.chai->use(path) : s.chai->eval_file(path); });
+  reply.set("out", take_stdout());
+  mj::Value rec = mj::Value::array();
+  for (const auto &r : s.h->rec) rec.push(r);
+  reply.set("rec", std::move(rec));
+  return reply;
+}
 static mj::Value cmd_ping(const mj::Value &) {
   mj::Value r = mj::Value::object();
   r.set("pong", true);
   return r;
 }
 
+static Registrar r_file("eval_file", cmd_file), r_use("use", cmd_file);
 static Registrar r_new("new", cmd_new), r_del("del", cmd_del), r_eval("eval", cmd_eval), r_run("run", cmd_run), r_ping("ping", cmd_ping);
 
 } // namespace vr
